@@ -689,26 +689,30 @@ Inductive content :=
 | CRecord (r : rr).
 Record line := mkLine { l_number : N; l_content : content }.
 
+(* the part of parse_record_or_empty after the empty-line test *)
+Definition parse_record_fields (c : ctx) (start_of_line : pos) (leading_whitespace : bool)
+  : M (option line * ctx) :=
+  do owner <- (if leading_whitespace then
+                 match c_prev_owner c with
+                 | Some o => ret o
+                 | None => failM start_of_line EmptyOwnerWithNoPrevious
+                 end
+               else parse_name (c_origin c));
+  skip_to_next_field ExpectedTtlClassOrType ;;
+  do tc <- parse_ttl_and_class c;
+  skip_to_next_field ExpectedType ;;
+  do rr_type <- parse_type;
+  do rdata <- parse_rdata c (snd tc) rr_type;
+  ret (Some (mkLine (p_line start_of_line) (CRecord (mkRr owner (fst tc) (snd tc) rr_type rdata))),
+       mkCtx (c_origin c) (Some owner) (Some (fst tc)) (Some (snd tc)) (c_default_ttl c)).
+
 Definition parse_record_or_empty (c : ctx) : M (option line * ctx) :=
   do start_of_line <- getpos;
   do leading_whitespace <- lift skip_whitespace;
   do f <- skip_to_next_field_or_through_eol;
   match f with
   | Eol => ret (None, c)
-  | Field =>
-    do owner <- (if leading_whitespace : bool then
-                   match c_prev_owner c with
-                   | Some o => ret o
-                   | None => failM start_of_line EmptyOwnerWithNoPrevious
-                   end
-                 else parse_name (c_origin c));
-    skip_to_next_field ExpectedTtlClassOrType ;;
-    do tc <- parse_ttl_and_class c;
-    skip_to_next_field ExpectedType ;;
-    do rr_type <- parse_type;
-    do rdata <- parse_rdata c (snd tc) rr_type;
-    ret (Some (mkLine (p_line start_of_line) (CRecord (mkRr owner (fst tc) (snd tc) rr_type rdata))),
-         mkCtx (c_origin c) (Some owner) (Some (fst tc)) (Some (snd tc)) (c_default_ttl c))
+  | Field => parse_record_fields c start_of_line leading_whitespace
   end.
 
 (* ---- directive.rs ------------------------------------------------------------------- *)
